@@ -54,6 +54,10 @@ type Ctx struct {
 	Exhaustive  bool
 	Variant     string // build configuration label for thorough re-evaluations
 	Strict      bool   // undecided obligations fail the check (development aid)
+	// InlinedReports: rule groups (e.g. "2 stages") whose violations on the inlined view are
+	// reported even when the source as written leaves the construct undecided: rules that
+	// order deep call chains and have shown no artefacts on the expansion's shape.
+	InlinedReports map[string]bool
 	minimums    []minimum
 	start       time.Time
 }
@@ -406,7 +410,7 @@ func (a *Ctx) CombineViews(b *Ctx) {
 			continue
 		}
 		o.Detail = o.Detail + " [inlined view]"
-		if o.Verdict == Violation && os.Getenv("GMSL_INLINE_ADD") == "" {
+		if o.Verdict == Violation && os.Getenv("GMSL_INLINE_ADD") == "" && !a.InlinedReports[group(o.Rule)] {
 			// the inlined view only ever rescues: a report needs the construct as written
 			o.Verdict = Undecided
 			o.Detail = "reported on the inlined view only: " + o.Detail
